@@ -49,6 +49,7 @@ type AV struct {
 	I     int64
 	S     string
 	Exact bool
+	Lo    bool // avInt: I is a lower bound (the value is >= I), not the exact value
 	Nil   bool // avRef: true = definitely nil, false = definitely non-nil
 	E     ErrClass
 	T     []AV
@@ -65,6 +66,7 @@ func TupleAV(xs ...AV) AV    { return AV{K: avTuple, T: xs} }
 func StrAV(s string) AV      { return AV{K: avStr, S: s, Exact: true} }
 func PrefixAV(s string) AV   { return AV{K: avStr, S: s} }
 func IntAV(i int64) AV       { return AV{K: avInt, I: i} }
+func IntGE(i int64) AV       { return AV{K: avInt, I: i, Lo: true} }
 func (a AV) IsTop() bool     { return a.K == avTop }
 func (a AV) IsTrue() bool    { return a.K == avBool && a.B }
 func (a AV) IsFalse() bool   { return a.K == avBool && !a.B }
@@ -77,7 +79,7 @@ func (a AV) equal(b AV) bool {
 	case avBool:
 		return a.B == b.B
 	case avInt:
-		return a.I == b.I
+		return a.I == b.I && a.Lo == b.Lo
 	case avStr:
 		return a.S == b.S && a.Exact == b.Exact
 	case avRef:
@@ -107,6 +109,13 @@ func joinAV(a, b AV) AV {
 		return Top
 	}
 	switch a.K {
+	case avInt:
+		// different integers: all that is kept is a lower bound (a counter that only grows keeps ">= n")
+		lo := a.I
+		if b.I < lo {
+			lo = b.I
+		}
+		return IntGE(lo)
 	case avStr:
 		// common prefix
 		n := 0
@@ -165,6 +174,18 @@ func joinInto(dst *env, src env) bool {
 			continue
 		}
 		j := joinAV(v, sv)
+		if v.K == avInt && v.Lo && j.K == avInt && j.I < v.I {
+			// widening with thresholds 1 and 0: a lower bound that sinks (a down-counting loop, or a state fed from
+			// several partitions) jumps to the next threshold below, and is given up below 0
+			switch {
+			case j.I >= 1:
+				j = IntGE(1)
+			case j.I >= 0:
+				j = IntGE(0)
+			default:
+				j = Top
+			}
+		}
 		if !j.equal(v) {
 			changed = true
 			if j.IsTop() {
@@ -187,6 +208,12 @@ type Scenario struct {
 	FieldLoad func(f *types.Var) (AV, bool)
 	// CallResult gives an assumed abstract result for opaque calls (all executions).
 	CallResult func(n *Node) (AV, bool)
+	// Marker (optional, with Start = the entry and AtEntry): an operation that, on any one of its executions, may
+	// deliver MarkerResult; the states after that are kept in a separate phase (ScnResult.ReachesAfterMarker), so
+	// "what can happen once this call has returned X, whatever happened before" is answered with the full
+	// history from the entry (e.g. a counter initialised before a loop).
+	Marker       *Node
+	MarkerResult AV
 }
 
 type pnode struct {
@@ -200,11 +227,12 @@ type ScnResult struct {
 	Reach    map[pnode]bool
 	edges    map[pnode][]pnode
 	startKey pnode
+	marker   *Node
 }
 
 // Run explores the expanded CFG under the scenario.
 func (g *XG) Run(sc Scenario) *ScnResult {
-	res := &ScnResult{G: g, Reach: map[pnode]bool{}, edges: map[pnode][]pnode{}}
+	res := &ScnResult{G: g, Reach: map[pnode]bool{}, edges: map[pnode][]pnode{}, marker: sc.Marker}
 	in := map[pnode]env{}
 	start := pnode{sc.Start, 0, 0}
 	res.startKey = start
@@ -220,8 +248,11 @@ func (g *XG) Run(sc Scenario) *ScnResult {
 	}
 	flow := func(from pnode, to *Node, e env) {
 		ph := from.ph
-		if to == sc.Start {
+		if to == sc.Start && sc.Marker == nil {
 			ph = 1
+		}
+		if sc.Marker != nil && to == sc.Marker && from.ph >= 1 {
+			ph = 2 // a later execution of the marked operation (no assumption): kept apart from the assumed one
 		}
 		part := from.part
 		if from.n.Kind == KRet && to.Kind == KAfter {
@@ -231,6 +262,15 @@ func (g *XG) Run(sc Scenario) *ScnResult {
 		}
 		tp := pnode{to, ph, part}
 		e2 := it.edge(from.n, to, e)
+		if scnDebug != "" && sc.Marker != nil && to.First && to.Instr != nil && strings.Contains(g.P.InstrPos(to.Instr), scnDebug) {
+			ints := ""
+			for k, v := range e2 {
+				if v.K == avInt {
+					ints += fmt.Sprintf(" %s=%d/%v", k.v.Name(), v.I, v.Lo)
+				}
+			}
+			fmt.Fprintf(os.Stderr, "SCN flow %s -> %s ph=%d part=%d ints:%s\n", g.Where(from.n), g.Where(to), ph, part, ints)
+		}
 		old := in[tp]
 		first := old == nil
 		ch := joinInto(&old, e2)
@@ -262,11 +302,72 @@ func (g *XG) Run(sc Scenario) *ScnResult {
 		}
 		e := in[p].clone()
 		it.transfer(p.n, e)
+		if scnDebug != "" && sc.Marker != nil {
+			if iff, ok := p.n.Instr.(*ssa.If); ok && strings.Contains(g.P.InstrPos(iff), scnDebug) {
+				fmt.Fprintf(os.Stderr, "SCN if %s ph=%d part=%d cond=%+v\n", g.Where(p.n), p.ph, p.part, it.val(p.n.Ctx, iff.Cond, e))
+			}
+		}
+		if sc.Marker != nil && p.n == sc.Marker && p.ph == 0 {
+			// the marked operation: on any of its executions it may deliver the assumed result; from then on the
+			// exploration is in phase 1 (states that passed the marker with that result are kept apart from those
+			// that did not)
+			if v, ok := p.n.Instr.(ssa.Value); ok {
+				e1 := e.clone()
+				e1[vkey{c: p.n.Ctx, v: v}] = sc.MarkerResult
+				p1 := pnode{p.n, 1, p.part}
+				for _, s := range it.feasible(p.n, e1) {
+					flow(p1, s.to, s.env)
+				}
+				res.edges[p] = appendUnique(res.edges[p], p1)
+				res.Reach[p1] = true
+			}
+		}
 		for _, s := range it.feasible(p.n, e) {
 			flow(p, s.to, s.env)
 		}
 	}
 	return res
+}
+
+// ReachesAvoidingAfterMarker: like ReachesAvoiding, starting where the marked operation delivered the assumed result.
+func (r *ScnResult) ReachesAvoidingAfterMarker(target, avoid func(*Node) bool) *Node {
+	seen := map[pnode]bool{}
+	var work []pnode
+	for p := range r.Reach {
+		if p.ph == 1 && r.marker != nil && p.n == r.marker {
+			seen[p] = true
+			work = append(work, p)
+		}
+	}
+	for len(work) > 0 {
+		p := work[len(work)-1]
+		work = work[:len(work)-1]
+		for _, s := range r.edges[p] {
+			if seen[s] || s.ph < 1 {
+				continue
+			}
+			seen[s] = true
+			if avoid != nil && avoid(s.n) {
+				continue
+			}
+			if target(s.n) {
+				return s.n
+			}
+			work = append(work, s)
+		}
+	}
+	return nil
+}
+
+// ReachesAfterMarker: some node satisfying pred is reachable after the marked operation delivered the assumed
+// result (Scenario.Marker).
+func (r *ScnResult) ReachesAfterMarker(pred func(*Node) bool) *Node {
+	for p := range r.Reach {
+		if p.ph >= 1 && pred(p.n) {
+			return p.n
+		}
+	}
+	return nil
 }
 
 func appendUnique(xs []pnode, x pnode) []pnode {
@@ -432,6 +533,9 @@ func (it *interp) eval(n *Node, v ssa.Value, e env) AV {
 		}
 		return NonNilAV(ErrOther)
 	case *ssa.BinOp:
+		if scnDebug != "" && strings.Contains(it.g.P.InstrPos(x), scnDebug) && (os.Getenv("SCN_MARKER_ONLY") == "" || it.sc.Marker != nil) {
+			fmt.Fprintf(os.Stderr, "SCN binop %s %s: %+v , %+v -> %+v\n", it.g.Where(n), x, it.val(c, x.X, e), it.val(c, x.Y, e), binop(x.Op, it.val(c, x.X, e), it.val(c, x.Y, e)))
+		}
 		return binop(x.Op, it.val(c, x.X, e), it.val(c, x.Y, e))
 	case *ssa.UnOp:
 		switch x.Op {
@@ -638,8 +742,12 @@ func binop(op token.Token, a, b AV) AV {
 			}
 		case a.K == avBool && b.K == avBool:
 			eq, known = a.B == b.B, true
-		case a.K == avInt && b.K == avInt:
+		case a.K == avInt && b.K == avInt && !a.Lo && !b.Lo:
 			eq, known = a.I == b.I, true
+		case a.K == avInt && b.K == avInt && a.Lo && !b.Lo && b.I < a.I:
+			eq, known = false, true
+		case a.K == avInt && b.K == avInt && b.Lo && !a.Lo && a.I < b.I:
+			eq, known = false, true
 		case a.K == avStr && b.K == avStr:
 			if a.Exact && b.Exact {
 				eq, known = a.S == b.S, true
@@ -660,7 +768,7 @@ func binop(op token.Token, a, b AV) AV {
 			return BoolAV(eq)
 		}
 	case token.LSS, token.LEQ, token.GTR, token.GEQ:
-		if a.K == avInt && b.K == avInt {
+		if a.K == avInt && b.K == avInt && !a.Lo && !b.Lo {
 			switch op {
 			case token.LSS:
 				return BoolAV(a.I < b.I)
@@ -670,6 +778,23 @@ func binop(op token.Token, a, b AV) AV {
 				return BoolAV(a.I > b.I)
 			case token.GEQ:
 				return BoolAV(a.I >= b.I)
+			}
+		}
+		// a lower bound against an exact value: only the comparisons the bound settles
+		if a.K == avInt && b.K == avInt && a.Lo && !b.Lo {
+			switch {
+			case op == token.GTR && a.I > b.I, op == token.GEQ && a.I >= b.I:
+				return BoolAV(true)
+			case op == token.LSS && a.I >= b.I, op == token.LEQ && a.I > b.I:
+				return BoolAV(false)
+			}
+		}
+		if a.K == avInt && b.K == avInt && b.Lo && !a.Lo {
+			switch {
+			case op == token.LSS && b.I > a.I, op == token.LEQ && b.I >= a.I:
+				return BoolAV(true)
+			case op == token.GTR && b.I >= a.I, op == token.GEQ && b.I > a.I:
+				return BoolAV(false)
 			}
 		}
 	case token.ADD:
@@ -685,11 +810,11 @@ func binop(op token.Token, a, b AV) AV {
 			}
 		}
 		if a.K == avInt && b.K == avInt {
-			return IntAV(a.I + b.I)
+			return AV{K: avInt, I: a.I + b.I, Lo: a.Lo || b.Lo}
 		}
 	case token.SUB:
-		if a.K == avInt && b.K == avInt {
-			return IntAV(a.I - b.I)
+		if a.K == avInt && b.K == avInt && !b.Lo {
+			return AV{K: avInt, I: a.I - b.I, Lo: a.Lo}
 		}
 	case token.LAND:
 		if a.K == avBool && b.K == avBool {
@@ -777,9 +902,9 @@ func (it *interp) refine(c *Ctx, cond ssa.Value, outcome bool, e env) {
 				set(x.Y, NonNilAV(ErrAny))
 			}
 		} else if isEq {
-			if (r.K == avBool || r.K == avInt || (r.K == avStr && r.Exact)) && l.IsTop() {
+			if (r.K == avBool || (r.K == avInt && !r.Lo) || (r.K == avStr && r.Exact)) && l.IsTop() {
 				set(x.X, r)
-			} else if (l.K == avBool || l.K == avInt || (l.K == avStr && l.Exact)) && r.IsTop() {
+			} else if (l.K == avBool || (l.K == avInt && !l.Lo) || (l.K == avStr && l.Exact)) && r.IsTop() {
 				set(x.Y, l)
 			}
 		}
